@@ -182,6 +182,9 @@ def load_pyx(rel, names, ns=None, transform=None, float_mode=False):
         from .replay import float_ns
         full.update(float_ns())
     full.update(pyx2py.RUNTIME)
+    if not float_mode:
+        from .values import Q as _Q
+        full['cf_build_dblcmplx'] = lambda a, b: _Q.of(a) + _Q(0, 1) * _Q.of(b)
     if ns:
         full.update(ns)
     if isinstance(names, str):
